@@ -240,25 +240,29 @@ def run(ctx: Ctx, rs: RuleSet, tier: str):
   rs.check(ok and star, rule, f'{sv.qualname}:walk',
            'all but the last element are followed in order from cfg',
            ctx.loc(sv, sv.node))
-  sinks = {}
-  for n in walk_function(sv.node):
-    if isinstance(n, ast.If):
-      chain = n
-      while True:
-        kinds = c10.isinstance_names(chain.test)
-        body = ' '.join(unparse(s) for s in chain.body)
-        for k in kinds:
-          sinks[k] = body
-        if len(chain.orelse) == 1 and isinstance(chain.orelse[0], ast.If):
-          chain = chain.orelse[0]
-          continue
-        if kinds:
-          sinks['<default>'] = ' '.join(unparse(s) for s in chain.orelse)
-        break
+  # what is done with the last element, per element class (CFG under the
+  # assumption "last is exactly an Attr / a Key / neither")
+  from fdlstatic import dispatch
   vals = roles.assigned_from(sv, roles.call_of('parse_value'))
+
+  def _stmt_texts(nodes):
+    return ' '.join(unparse(g.stmt[n]) for n in sorted(nodes)
+                    if g.kind[n] == 'stmt' and g.stmt[n] is not None)
+
+  base = dispatch.reach_for(g, LAST, None)
+  sinks = {}
+  for k in ('Attr', 'Key'):
+    r = dispatch.reach_for(g, LAST, k)
+    sinks[k] = _stmt_texts(r - base)
+  only_default = base - dispatch.reach_for(g, LAST, 'Attr') - dispatch.reach_for(
+      g, LAST, 'Key')
+  sinks['<default>'] = _stmt_texts(only_default)
   ok = ('raise' in sinks.get('<default>', '') and any(
       f'setattr({WALK}, {LAST}.name, {v})' in sinks.get('Attr', '') and
-      f'{WALK}[{LAST}.key] = {v}' in sinks.get('Key', '') for v in vals))
+      f'{WALK}[{LAST}.key] = {v}' in sinks.get('Key', '') and
+      f'{WALK}[{LAST}.key] = {v}' not in sinks.get('Attr', '') and
+      f'setattr({WALK}, {LAST}.name, {v})' not in sinks.get('Key', '')
+      for v in vals))
   rs.check(ok, rule, f'{sv.qualname}:sinks',
            f'sinks: {sinks}', ctx.loc(sv, sv.node))
 
